@@ -5,7 +5,7 @@ From LC Require Import Lib.Bytes Lib.Lex Lib.Fields Lib.PathM Gen.Consts
   Model.MountInfo Model.FsTree Model.Kernel Model.Layers Cases.Verdict Cases.LC Cases.C16
   Proofs.MonadP Proofs.C15P Proofs.C10P Proofs.PathP
   Proofs.C16FsP Proofs.C16MonadP Proofs.C16FrameP Proofs.C16ClobberP Proofs.C16PathP
-  Proofs.C16RenameP.
+  Proofs.C16RenameP Proofs.C16MountP.
 Close Scope string_scope.
 Open Scope list_scope.
 Import LC LCS.
@@ -129,4 +129,93 @@ Proof.
   pose proof (run_rr_rel cfg H1 H2 H3 H4 H5 H6 H7 H8 e He um cmd n Hrr (MkSt (world_of w) 0 [])) as HR.
   unfold st in HR. rewrite Hrun in HR. cbn [snd] in HR.
   apply Rel_rr_spec; assumption.
+Qed.
+
+(* ------------------------------------------------------------------ (c) after mount *)
+(* the two export sub-directories are distinct plain names; the per-layer package / generated
+   directories are relative paths of plain components *)
+Definition cfg_ok_mount (c : cfgT) : bool :=
+  plainb (c_exp_binpkg c) && plainb (c_exp_gen c) && negb (beq (c_exp_binpkg c) (c_exp_gen c))
+  && rel_ok (c_binpkg c) && rel_ok (c_gen c).
+
+(* every export directive of every layer of the chain names exactly one of the two keys, once *)
+Definition chain_simple (c : cfgT) (f : fsT) (n : bytes) : bool := forallb exports_simple (chain c f n).
+
+Definition mount_spec (c : cfgT) (n : bytes) (f f' : fsT) : bool :=
+  forallb (fun x =>
+    C16.link_ok f' (C16.pkg_link c (l_name x)) (pathjoin [l_path x; c_binpkg c]) (C16.explicit_target c x (bs "package_export"))
+    && C16.link_ok f' (C16.gen_link c (l_name x)) (pathjoin [l_path x; c_gen c]) (C16.explicit_target c x (bs "file_export")))
+    (chain c f n).
+
+Lemma cfg_ok_mount_links c : cfg_ok_mount c = true -> cfg_ok_links c = true.
+Proof.
+  unfold cfg_ok_mount, cfg_ok_links. intros H.
+  apply andb_true_iff in H as [H _]. apply andb_true_iff in H as [H _]. apply andb_true_iff in H as [H _].
+  apply andb_true_iff in H as [H1 H2]. apply plainb_spec in H1, H2.
+  destruct (plain_rel_ok _ H1) as [-> _]. destruct (plain_rel_ok _ H2) as [-> _]. reflexivity.
+Qed.
+
+Lemma in_lks c n T : In T (lks c n) -> is_link_of c n T.
+Proof. unfold lks, is_link_of. intros [<-|[<-|[]]]; auto. Qed.
+Lemma in_aus c n A : In A (aus c n) -> is_auto_of c n A.
+Proof. unfold aus, autoP, autoG, is_auto_of. intros [<-|[<-|[]]]; auto. Qed.
+
+Theorem C16_after_mount_partial_proof cfg w e n um :
+  plain_env e = true -> cfg_ok cfg = true -> cfg_ok_mount cfg = true ->
+  chain_simple cfg (wo_fs w) n = true ->
+  v_res (view_of_model cfg w e (CMount n) um) = ROk ->
+  mount_spec cfg n (wo_fs w) (wo_fs (v_after (view_of_model cfg w e (CMount n) um))) = true.
+Proof.
+  intros He Hc Hcm Hsim Hok. apply plain_env_plain in He.
+  unfold cfg_ok in Hc. apply andb_true_iff in Hc as [Hc Hbr]. apply andb_true_iff in Hc as [Hc HLE].
+  apply andb_true_iff in Hc as [Hc HEL]. apply andb_true_iff in Hc as [HdL HdE].
+  apply negb_true_iff in HLE, HEL.
+  destruct (dir_ok_slcat _ HdL) as (csL & HLne & HLp & HL).
+  destruct (dir_ok_slcat _ HdE) as (csE & HEne & HEp & HE).
+  unfold cfg_ok_mount in Hcm. apply andb_true_iff in Hcm as [Hcm Hgen]. apply andb_true_iff in Hcm as [Hcm Hbin].
+  apply andb_true_iff in Hcm as [Hcm Hbg]. apply andb_true_iff in Hcm as [Hxb Hxg].
+  apply plainb_spec in Hxb, Hxg. apply negb_true_iff, beq_false in Hbg.
+  rewrite view_after. cbn [wo_fs]. rewrite view_res in Hok. unfold run in *.
+  destruct (run_command e cfg um (CMount n) (MkSt (world_of w) 0 [])) as [o st1] eqn:Hrun.
+  cbn [fst snd] in *. destruct o as [a| | | |]; try discriminate Hok.
+  unfold chain_simple in Hsim. rewrite forallb_forall in Hsim.
+  assert (Hpost : forall x0, In x0 (chain cfg (wo_fs w) n) -> links_ok cfg x0 (w_fs (s_w st1))).
+  { refine (run_mount_post cfg e He _ _ _ _ _ um n (wo_fs w) Hsim (MkSt (world_of w) 0 []) a st1 eq_refl Hrun).
+    - intros n0 [Hl Hne] T HT.
+      apply (H_dir_proof cfg csE HEne HEp HE Hxb Hxg n0 T Hl Hne (in_lks _ _ _ HT)).
+    - intros n0 [Hl Hne] T HT.
+      apply (H_abs_proof cfg csE HEne HEp HE Hxb Hxg n0 T Hl Hne (in_lks _ _ _ HT)).
+    - intros n0 [Hl Hne]. apply (H_PG_proof cfg csE HEne HEp HE Hxb Hxg Hbg n0 Hl Hne).
+    - intros n0 m [Hl Hne] [Hlm Hnem] Hnm T HT T' HT'.
+      apply (H_diff_proof cfg csE HEne HEp HE Hxb Hxg n0 m T T' Hl Hne Hlm Hnem Hnm (in_lks _ _ _ HT) (in_lks _ _ _ HT')).
+    - intros n0 m [Hl Hne] [Hlm Hnem] T HT A HA.
+      apply (H_auto_proof cfg csE csL HEne HEp HE HLne HLp HL HEL HLE Hxb Hxg Hbin Hgen n0 m T A Hl Hne Hlm Hnem
+               (in_lks _ _ _ HT) (in_aus _ _ _ HA)). }
+  unfold mount_spec. apply forallb_forall. intros x0 Hx0. destruct (Hpost x0 Hx0) as [H1 H2].
+  rewrite H1, H2. reflexivity.
+Qed.
+
+Lemma cmd_spec_mount c w v n : v_cmd v = CMount n -> v_res v = ROk ->
+  cmd_spec c w v = mount_spec c n (wo_fs w) (wo_fs (v_after v)).
+Proof. intros Hc Hok. unfold cmd_spec. rewrite Hc, Hok. reflexivity. Qed.
+
+(* ------------------------------------------------------------------ the whole predicate *)
+Definition mount_ok (c : cfgT) (w : wobs) (cmd : command) : bool :=
+  match cmd with CMount n => chain_simple c (wo_fs w) n | _ => true end.
+
+Theorem C16_model_partial_proof cfg w e cmd um :
+  cfg_ok cfg = true -> cfg_ok_mount cfg = true -> world_ok cfg w = true -> mount_ok cfg w cmd = true ->
+  C16.step_spec cfg w (view_of_model cfg w e cmd um) = true.
+Proof.
+  intros Hc Hcm Hw Hmo. rewrite step_spec_split, view_env.
+  destruct (plain_env e) eqn:He; [|reflexivity]. cbn [negb].
+  rewrite (C16_never_clobbers_proof cfg w e cmd um He Hc Hw). cbn [andb].
+  destruct (v_res (view_of_model cfg w e cmd um)) eqn:Hres.
+  2-5: unfold cmd_spec; rewrite Hres, view_cmd; destruct cmd; reflexivity.
+  destruct (rr_of cmd) as [n|] eqn:Hrr.
+  - rewrite (cmd_spec_rr cfg w _ n); [|rewrite view_cmd; exact Hrr|exact Hres].
+    apply C16_rename_remove_proof; auto. apply cfg_ok_mount_links, Hcm.
+  - destruct cmd; try discriminate Hrr; try (unfold cmd_spec; rewrite Hres, view_cmd; reflexivity).
+    rewrite (cmd_spec_mount cfg w _ a); [|apply view_cmd|exact Hres].
+    apply C16_after_mount_partial_proof; auto.
 Qed.
